@@ -2,7 +2,7 @@
    Statements only.  `encode` calls the GENERATED INSTRUCTIONS dictionary (Gen/Encoders.v, regenerated from
    asm.py on every run); decode32 / denote32 / operands32 are the hand-written Spec. *)
 From Coq Require Import ZArith List String.
-From BB Require Import Base.PyBase Gen.Encoders Spec.RV32 Spec.Operands Model.Encode Proofs.Regs Proofs.C01Main Model.Items Model.PyExpr Model.Parser Model.Passes Proofs.EndToEnd.
+From BB Require Import Base.PyBase Gen.Encoders Spec.RV32 Spec.Operands Model.Encode Proofs.Regs Proofs.C01Main Model.Items Model.PyExpr Model.Parser Model.Passes Model.Lexer Proofs.LexSep Proofs.EndToEnd.
 Import ListNotations.
 Open Scope Z_scope.
 
@@ -104,3 +104,34 @@ Theorem C01_transfer_line_end_to_end :
     0 <= w < 2 ^ 32 /\ operands32 name args nil = Some ops /\ denote32 name ops = Some i /\ decode32 w = Some i.
 Proof. exact EndToEnd.transfer_line_end_to_end. Qed.
 Print Assumptions C01_transfer_line_end_to_end.
+
+(* ... and from the TEXT of the line: in ANY separator style (indentation, blanks / tabs / commas between operands, trailing comment
+   -- the documented freedoms of C13) the lexer model returns the four tokens, and the chain above follows *)
+Theorem C01_text_line_end_to_end :
+  forall (sty : LexSep.style) l name rd rs1 rs2 a w,
+    let ts := map chars [name; rd; rs1; rs2] in
+    Forall LexSep.tok_ok ts -> LexSep.not_special ts -> LexSep.style_ok sty ts ->
+    In name EndToEnd.r3_names -> In name base_mnemonics -> String.eqb rd "=" = false -> PyExpr.arith_of_string rs2 = Some a ->
+    encode name [AStr rd; AStr rs1; AStr rs2] nil = Ok w ->
+    Lexer.lex_tokens (unchars (LexSep.render sty ts)) = Some [name; rd; rs1; rs2] /\
+    exists it ops i,
+      Parser.parse_item l [name; rd; rs1; rs2] = Parser.FOk it /\
+      Passes.assemble_items ((l, it) :: nil) nil nil false =
+        Passes.Done {| Passes.r_chunks := (l, Passes.CBytes (Passes.le_bytes 4 w)) :: nil; Passes.r_consts := nil; Passes.r_labels := nil |} /\
+      0 <= w < 2 ^ 32 /\
+      operands32 name [AStr rd; AStr rs1; AStr rs2] nil = Some ops /\ denote32 name ops = Some i /\ decode32 w = Some i.
+Proof. exact EndToEnd.r_text_end_to_end. Qed.
+Print Assumptions C01_text_line_end_to_end.
+Example C01_text_line_example :      (* "  sub x1,t0 , x3  # c" *)
+  let ts := map chars ["sub"; "x1"; "t0"; "x3"]%string in
+  let sty := {| LexSep.indent := chars "  "; LexSep.gaps := [chars " "; chars ","; chars " , "; chars "  "]; LexSep.comment := Some (chars " c") |} in
+  unchars (LexSep.render sty ts) = "  sub x1,t0 , x3  # c"%string /\
+  Forall LexSep.tok_ok ts /\ LexSep.not_special ts /\ LexSep.style_ok sty ts.
+Proof.
+  cbv zeta. split. { vm_compute. reflexivity. }
+  split. { repeat (constructor; [left; split; [discriminate|repeat (constructor; [reflexivity|])]; constructor|]). constructor. }
+  split. { split; discriminate. }
+  split. { repeat (constructor; [reflexivity|]). constructor. }
+  split. { reflexivity. }
+  cbn. repeat split; try (repeat (constructor; [reflexivity|]); constructor); try (left; discriminate); try discriminate.
+Qed.
